@@ -74,6 +74,7 @@ class Opts:
         self.bundle_port_pct = 50
         self.strided = True
         self.anon_prefs = True
+        self.same_name_ext = False  # external modules of one name in two domains
         self.open_pct = 8        # ports left without a connection of their own (they must end up referenced)
         self.anon_pref_pct = 25  # anonymous-bundle members that are port references
         self.array_pct = 22
@@ -660,6 +661,13 @@ def gen_cells(d, o):
             names = PORT_NAMES[:np_]
             cells.append({"kind": "ext", "name": "X%d" % k,
                           "ports": [[n, d.width(o.wide), d.choice(DIRS)] for n in names]})
+    exts = [c for c in cells if c["kind"] == "ext"]
+    if o.same_name_ext and exts and d.bool(50):
+        # a second external module with the NAME of an earlier one, in another domain (and with ports of its own)
+        twin = d.choice(exts)
+        names = PORT_NAMES[:d.int(1, 4)]
+        cells.append({"kind": "ext", "name": twin["name"], "domain": "verif2",
+                      "ports": [[n, d.width(o.wide), d.choice(DIRS)] for n in names]})
     return cells
 
 
